@@ -267,19 +267,19 @@ Section Derived.
     - intros v. rewrite (proj1 (seteq_b_spec _ _) Hk v). rewrite <- memb_in. apply (reach_b_spec vs es r Hok).
     - intros v D Hin d. rewrite forallb_forall in Hall. specialize (Hall _ Hin). cbn [fst snd] in Hall.
       apply andb_true_iff in Hall. destruct Hall as [Hs _].
-      rewrite (proj1 (seteq_b_spec _ _) Hs d). unfold set_of. rewrite filter_In, (dom_b_spec vs es r Hok).
+      rewrite (proj1 (seteq_b_spec _ _) Hs d). unfold set_of. rewrite filter_In. cbn beta. unfold t. rewrite (dom_b_spec vs es r Hok).
       split; [tauto|]. intros Hd. split; auto. eapply dom_in_vv; eauto.
   Qed.
 
   Lemma in_df_b_spec x y : in_df_b t es x y = true <-> in_DF es r x y.
   Proof.
-    unfold in_df_b, in_DF. rewrite andb_true_iff, existsb_exists, negb_true_iff. split.
+    unfold in_df_b, in_DF. unfold t. rewrite andb_true_iff, existsb_exists, negb_true_iff. split.
     - intros [[p [Hp Hd]] Hn]. exists p. split; [apply opred_in; exact Hp|]. split.
       + apply (dom_b_spec vs es r Hok). exact Hd.
       + intros Hs. apply (sdom_b_spec vs es r Hok) in Hs. congruence.
     - intros [p [Hp [Hd Hn]]]. split.
       + exists p. split; [apply opred_in; exact Hp|]. apply (dom_b_spec vs es r Hok). exact Hd.
-      + destruct (sdom_b t x y) eqn:Hs; auto. exfalso. apply Hn. apply (sdom_b_spec vs es r Hok). exact Hs.
+      + destruct (sdom_b (mk_tab vs es r) x y) eqn:Hs; auto. exfalso. apply Hn. apply (sdom_b_spec vs es r Hok). exact Hs.
   Qed.
 
   (* the dominance frontiers *)
@@ -289,7 +289,7 @@ Section Derived.
     unfold df_ok. rewrite !andb_true_iff. intros [_ Hall] x F Hin y.
     rewrite forallb_forall in Hall. specialize (Hall _ Hin). cbn [fst snd] in Hall.
     apply andb_true_iff in Hall. destruct Hall as [Hs _].
-    rewrite (proj1 (seteq_b_spec _ _) Hs y). unfold set_of. rewrite filter_In, in_df_b_spec.
+    rewrite (proj1 (seteq_b_spec _ _) Hs y). unfold set_of. rewrite filter_In. cbn beta. rewrite in_df_b_spec.
     split; [tauto|]. intros Hd. split; auto.
     destruct Hd as [p [Hp _]]. unfold vv, verts. apply fold_add_new_in. left. right.
     apply in_or_app. right. apply in_or_app. right. apply in_map_iff. exists (p, y). auto.
@@ -298,6 +298,6 @@ Section Derived.
   (* back edges *)
   Lemma back_edge_b_spec a b : In (a, b) es -> (back_edge_b t (a, b) = true <-> back_edge es r a b).
   Proof.
-    intros Hin. unfold back_edge_b, back_edge. cbn [fst snd]. rewrite (dom_b_spec vs es r Hok). unfold edge. tauto.
+    intros Hin. unfold back_edge_b, back_edge. unfold t. cbn [fst snd]. rewrite (dom_b_spec vs es r Hok). unfold edge. tauto.
   Qed.
 End Derived.
